@@ -48,6 +48,35 @@ def run(prog, tier):
 
 # ---------------------------------------------------------------------------- count
 def check_numvar(R, prog):
+    """shape rules on the counters; for the methods whose meaning is confirmed by folding (semantic_counts) a shape the rule does not
+    recognise is undecided, and a folded mismatch is a finding of its own"""
+    T = Result(P, "")
+    _shape_check_numvar(T, prog)
+    sem = semantic_counts(prog)
+    confirmed = {k for k, (v, d) in sem.items() if v is True}
+    for o in T.obligations:
+        if o["status"] == "discharged":
+            R.ok(o["rule"], o["instance"], o["where"], nontrivial=o["nontrivial"])
+    R.floors.extend(T.floors)
+    for u in T.unproven:
+        R.unknown(u["rule"], u["instance"], u["where"], u["why"])
+    for f in T.findings:
+        fkey = "%s:%s" % (f.module, f.function)
+        if fkey in confirmed:
+            R.unknown(f.rule, f.construct, fkey, "shape not recognised (%s); the method's meaning was confirmed by folding" % f.message[:100])
+        else:
+            R.bad(f)
+    for k, (v, d) in sorted(sem.items()):
+        if v is True:
+            R.ok("COUNT-SEMANTICS", "%s: %s" % (k.split(":")[1], d), k)
+        elif v is False:
+            mod, q = k.split(":")
+            R.bad(F("COUNT-SEMANTICS", prog.func(mod, q), q, d))
+        else:
+            R.unknown("COUNT-SEMANTICS", k, k, d)
+
+
+def _shape_check_numvar(R, prog):
     sites = 0
     for fi in prog.all_functions():
         for s in stmts_in(fi.node):
@@ -580,3 +609,89 @@ def fold(e, env):
         except (ValueError, ZeroDivisionError, OverflowError) as x:
             raise Unknown("%s: %s" % (src(e), x))
     raise Unknown("cannot fold %s" % src(e))
+
+
+# ---------------------------------------------------------------------------- the counters, by meaning
+def semantic_counts(prog):
+    """fold the count-keeping methods of BaseCNF / BaseOPB on small instances: update_variable_number gives max(old, new);
+    _check_and_update raises the count to the largest |literal| (refusing literal 0 with ValueError); BaseCNF.add_clause stores a copy
+    of the clause and, with check=True, does the same update.  -> {function key: (True | False | None, detail)}"""
+    import types
+    from ..fold import Folder, Raised
+    out = {}
+
+    def nn_int(v, name=None):
+        if not isinstance(v, int) or isinstance(v, bool):
+            raise TypeError(name)
+        if v < 0:
+            raise ValueError(name)
+    G = {"non_negative_int": nn_int, "positive_int": nn_int}
+
+    def fold(fi, selfobj, args, kw=None, methods=None):
+        f = Folder(env={}, methods=methods or {})
+        f.globals = dict(G)
+        try:
+            f.call_function(fi.node, [selfobj] + list(args), kw or {})
+            return "ok"
+        except Raised as r:
+            return r.cls
+    for mod, cls in BASE.items():
+        ci = prog.cls(mod, cls)
+        methods = {k: v.node for k, v in ci.methods.items()}
+        # update_variable_number
+        fu = ci.methods["update_variable_number"]
+        verdict = (True, "update_variable_number(old, new) = max(old, new) for 12 pairs")
+        try:
+            for old in (0, 3, 5):
+                for new in (0, 2, 5, 7):
+                    s_ = types.SimpleNamespace(_numvar=old)
+                    r = fold(fu, s_, [new], methods=methods)
+                    if r != "ok" or s_._numvar != max(old, new):
+                        verdict = (False, "%s.update_variable_number(%d) on a formula with %d variables gives %s (%s); the count may only be raised to max(old, new)"
+                                   % (cls, new, old, s_._numvar, r))
+        except Unknown as e:
+            verdict = (None, "cannot fold: %s" % e)
+        out[fu.key] = verdict
+        # _check_and_update
+        fc = ci.methods["_check_and_update"]
+        verdict = (True, "_check_and_update raises the count to the largest |literal| and refuses literal 0")
+        try:
+            for old in (0, 4):
+                if cls == "BaseCNF":
+                    datas = [([1, -2], 2), ([5], 5), ([-7, 3], 7), ([], 0), ([2, 0, 1], "ValueError"), ([-3], 3)]
+                else:
+                    datas = [([(1, 1), (2, -2), ">=", 1], 2), ([(1, 5), "==", 1], 5), ([(3, -7), (1, 3), ">=", 2], 7), ([">=", 0], 0),
+                             ([(1, 2), (1, 0), ">=", 1], "ValueError"), ([], 0)]
+                for data, want in datas:
+                    s_ = types.SimpleNamespace(_numvar=old)
+                    r = fold(fc, s_, [list(data)], methods=methods)
+                    if want == "ValueError":
+                        if r != "ValueError":
+                            verdict = (False, "%s._check_and_update(%s) must refuse the literal 0 with ValueError; outcome: %s" % (cls, data, r))
+                    elif r != "ok" or s_._numvar != max(old, want):
+                        verdict = (False, "%s._check_and_update(%s) on a formula with %d variables leaves the count at %s (%s); it must become %d"
+                                   % (cls, data, old, s_._numvar, r, max(old, want)))
+        except Unknown as e:
+            verdict = (None, "cannot fold: %s" % e)
+        out[fc.key] = verdict
+    # BaseCNF.add_clause
+    ci = prog.cls("cnfgen.formula.basecnf", "BaseCNF")
+    methods = {k: v.node for k, v in ci.methods.items()}
+    fa = ci.methods["add_clause"]
+    verdict = (True, "add_clause stores a copy of the clause and, with check=True, raises the count to its largest |literal|")
+    try:
+        for check in (True, False):
+            for clause, mx in (([1, -2], 2), ([], 0), ((3, 4), 4), ([-6], 6)):
+                s_ = types.SimpleNamespace(_numvar=1, _clauses=[[9]])
+                r = fold(fa, s_, [clause], {"check": check}, methods=methods)
+                wantn = max(1, mx) if check else 1
+                if r != "ok" or s_._clauses != [[9], list(clause)] or s_._numvar != wantn or (s_._clauses[-1] is clause):
+                    verdict = (False, "BaseCNF.add_clause(%s, check=%s): clauses %s, count %s (%s); expected the clause appended as a list of its own "
+                               "and the count %d" % (clause, check, s_._clauses, s_._numvar, r, wantn))
+        s_ = types.SimpleNamespace(_numvar=1, _clauses=[])
+        if fold(fa, s_, [[1, 0]], {"check": True}, methods=methods) != "ValueError":
+            verdict = (False, "BaseCNF.add_clause([1, 0], check=True) must raise ValueError for the literal 0")
+    except Unknown as e:
+        verdict = (None, "cannot fold: %s" % e)
+    out[fa.key] = verdict
+    return out
